@@ -248,6 +248,241 @@ fn same_out(a: &Out, b: &Out) -> bool {
     }
 }
 
+/// C22: run `hist` with a panic injected at user-code callback point number `inject` (counted
+/// over the whole history); returns (violation, did the injection fire, kind of the point).
+pub fn run_fault_case(prog: &Arc<Program>, hist: &[Op], inject: i64, stats: &mut Stats) -> (Option<(String, String, usize)>, bool, Option<ql::val::P>, u64) {
+    use ql::val::inj;
+    let mut sess = Sess::new(prog.clone());
+    sess.db.cx_arc().event_points.store(true, std::sync::atomic::Ordering::SeqCst);
+    sess.db.cx_arc().logging.store(false, std::sync::atomic::Ordering::SeqCst);
+    let mut world = World::new(prog);
+    inj::arm(inject);
+    let mut fired_at: Option<usize> = None;
+    let mut fired_rev = String::new();
+    let n_hist = hist.len();
+    // epilogue: one more revision, then every node
+    let mut tail: Vec<Op> = vec![Op::Syn(Dur::Low)];
+    tail.extend((0..prog.nodes.len() as u8).map(Op::Q));
+    let mut viol = None;
+    for (i, op) in hist.iter().chain(tail.iter()).enumerate() {
+        let exp = match world.apply_write(prog, op) {
+            Some(e) => e,
+            None => world.expect(op),
+        };
+        let was_fired = inj::fired();
+        let out = sess.apply(op);
+        let rev = format!("{:?}", salsa::plumbing::current_revision(&sess.db));
+        stats.checks += 1;
+        if !was_fired && inj::fired() {
+            // this is the operation in which the injected panic happened
+            fired_at = Some(i);
+            fired_rev = rev.clone();
+            if !matches!(out, Out::Panic(Pk::Injected(_))) {
+                viol = Some(("marker-lost".to_string(), format!("step {i} {op:?}: a panic was injected at callback point {inject} ({:?}) but the operation ended in {out:?}", inj::fired_kind()), i));
+                break;
+            }
+            // a write interrupted by the panic may or may not have taken effect: the model
+            // follows what the database actually holds
+            match op {
+                Op::Set(c, _) | Op::SetD(c, _, _) => {
+                    let actual = sess.read_cell(*c);
+                    world.cells[*c as usize] = actual;
+                }
+                Op::Swap(n) => {
+                    let actual = sess.read_code(*n);
+                    let k = *n as usize;
+                    let is_alt = prog.nodes[k].alt.as_ref() == Some(&actual) && prog.nodes[k].ex != actual;
+                    world.swapped[k] = is_alt;
+                    sess.swapped[k] = is_alt;
+                    world.code[k] = actual;
+                }
+                _ => {}
+            }
+            continue;
+        }
+        let ok = if out_matches(&exp, &out) {
+            true
+        } else if fired_at.is_some() && rev == fired_rev && matches!(out, Out::Panic(Pk::CancelPropagated)) {
+            // same revision as the panic: a function that depends on a cycle may still answer
+            // with a propagated panic
+            match op {
+                Op::Q(n) => {
+                    let reach = world.reachable(&[*n]);
+                    reach.iter().enumerate().any(|(j, r)| *r && matches!(world.kinds[j], Kind::Fx | Kind::Fxj | Kind::Fb))
+                }
+                _ => false,
+            }
+        } else {
+            false
+        };
+        if !ok {
+            let phase = if fired_at.is_none() { "before the injection" } else if i >= n_hist { "in a later revision" } else { "after the injection" };
+            viol = Some((
+                format!("after-panic:{}", inj::fired_kind().map(|k| format!("{k:?}")).unwrap_or_else(|| "none".into())),
+                format!("step {i} {op:?} ({phase}; panic injected at point {inject} {:?} in step {:?}): expected {exp:?}, observed {out:?}", inj::fired_kind(), fired_at),
+                i,
+            ));
+            break;
+        }
+    }
+    let fired = inj::fired();
+    let kind = inj::fired_kind();
+    let total = inj::disarm();
+    drop(sess);
+    (viol, fired, kind, total)
+}
+
+/// Attribute a C22 violation to a known cause, if there is one: the message of salsa's own
+/// assertions about a tracked struct left write-locked by an earlier unwind, or (by re-running the
+/// case with full logging and the cycle-defect detectors of `mon.rs`) one of the cycle defects.
+fn classify_fault(prog: &Arc<Program>, hist: &[Op], inject: i64, oracle: &str, msg: &str) -> String {
+    use ql::val::inj;
+    if msg.contains("two concurrent writers to")
+        || msg.contains("cannot delete write-locked id")
+        || msg.contains("cannot delete read-locked id")
+        || msg.contains("failed to acquire write lock")
+    {
+        return "tracked-struct-lock-state-after-unwind".into();
+    }
+    if prog.name.contains("colliding") {
+        // an identity change under a colliding hash updates the slot in place (new generation)
+        // before the creator finishes; if the creator then unwinds, its retry sees the slot as
+        // already updated in this revision and keeps the old id
+        return "colliding-identity-update-then-unwind".into();
+    }
+    if !prog.nodes.iter().any(|n| matches!(n.kind, Kind::Fx | Kind::Fxj | Kind::Fb)) {
+        return oracle.to_string();
+    }
+    let mut sess = Sess::new(prog.clone());
+    sess.db.cx_arc().event_points.store(true, std::sync::atomic::Ordering::SeqCst);
+    let mut world = World::new(prog);
+    let flags = Flags { values: true, ..Flags::default() };
+    let mut mon = Monitor::new(flags, prog.clone());
+    mon.bind(&sess);
+    let mut st = Stats::default();
+    inj::arm(inject);
+    let mut tail: Vec<Op> = vec![Op::Syn(Dur::Low)];
+    tail.extend((0..prog.nodes.len() as u8).map(Op::Q));
+    let mut class = oracle.to_string();
+    for (i, op) in hist.iter().chain(tail.iter()).enumerate() {
+        let exp = match world.apply_write(prog, op) {
+            Some(e) => e,
+            None => world.expect(op),
+        };
+        let was_fired = inj::fired();
+        let out = sess.apply(op);
+        let log = sess.db.cx_arc().take_log();
+        mon.pre_scan(i, op, &log, &sess);
+        if !was_fired && inj::fired() {
+            match op {
+                Op::Set(c, _) | Op::SetD(c, _, _) => world.cells[*c as usize] = sess.read_cell(*c),
+                Op::Swap(n) => {
+                    let actual = sess.read_code(*n);
+                    let k = *n as usize;
+                    let is_alt = prog.nodes[k].alt.as_ref() == Some(&actual) && prog.nodes[k].ex != actual;
+                    world.swapped[k] = is_alt;
+                    sess.swapped[k] = is_alt;
+                    world.code[k] = actual;
+                }
+                _ => {}
+            }
+            let _ = mon.after_op(i, op, &Expect::Undefined, &out, &log, &mut sess, &world, None, &mut st);
+            continue;
+        }
+        if !out_matches(&exp, &out) && !matches!(out, Out::Panic(Pk::CancelPropagated)) {
+            if let Some(c) = mon.classify(&out) {
+                class = c.to_string();
+            }
+            break;
+        }
+        let _ = mon.after_op(i, op, &exp, &out, &log, &mut sess, &world, None, &mut st);
+    }
+    inj::disarm();
+    class
+}
+
+/// C22 worker: every history of the stated depth x every injection point.
+pub fn run_fault_worker(spec: &Spec, w: usize, nw: usize) -> WorkerOut {
+    let start = Instant::now();
+    let mut out = WorkerOut::default();
+    let mut part = 0usize;
+    let mut viol_sigs = std::collections::BTreeSet::new();
+    'progs: for prog in &spec.programs {
+        let alpha = (spec.alphabet)(prog);
+        let prog = Arc::new(prog.clone());
+        let na = alpha.len();
+        for first in 0..na {
+            let mine = part % nw == w;
+            part += 1;
+            if !mine {
+                continue;
+            }
+            let d = spec.depth;
+            let mut idx = vec![0usize; d];
+            idx[0] = first;
+            loop {
+                let hist: Vec<Op> = idx.iter().map(|i| alpha[*i].clone()).collect();
+                // counting run
+                let (v0, _, _, total) = run_fault_case(&prog, &hist, -1, &mut out.stats);
+                out.stats.states += 1;
+                if v0.is_some() {
+                    // the history fails without any injection (a known finding of another
+                    // property): not this property's business
+                    out.stats.bump("histories_skipped_because_they_fail_without_injection", 1);
+                } else {
+                    for i in 0..total as i64 {
+                        let (v, fired, kind, _) = run_fault_case(&prog, &hist, i, &mut out.stats);
+                        out.stats.executions += 1;
+                        out.stats.transitions += 1;
+                        if fired {
+                            out.stats.nontrivial += 1;
+                            if let Some(k) = kind {
+                                out.stats.bump(&format!("injected_at_{k:?}"), 1);
+                                out.stats.outcome(&format!("panic-at-{k:?}"));
+                            }
+                        }
+                        if out.stats.samples.len() < 2 && fired && i > 3 {
+                            out.stats.samples.push(json!({"program": prog.name, "history": format!("{hist:?}"), "callback_points": total, "injected_at": i, "kind": format!("{kind:?}")}));
+                        }
+                        if let Some((oracle, msg, step)) = v {
+                            let class = classify_fault(&prog, &hist, i, &oracle, &msg);
+                            let sig = if class == oracle { format!("{}:{}:{}", spec.id, oracle, prog.name) } else { format!("{}:{}", spec.id, class) };
+                            if viol_sigs.insert(sig.clone()) {
+                                out.viols.push(Viol {
+                                    property: spec.id.to_string(),
+                                    signature: sig,
+                                    what: msg,
+                                    case: json!({"engine": "e1-fault", "config": spec.config, "step": step, "inject": i,
+                                        "case": Case { program: (*prog).clone(), history: hist.clone() }}),
+                                });
+                            }
+                        }
+                    }
+                }
+                let mut k = d;
+                let mut done = true;
+                while k > 1 {
+                    k -= 1;
+                    idx[k] += 1;
+                    if idx[k] < na {
+                        done = false;
+                        break;
+                    }
+                    idx[k] = 0;
+                }
+                if done {
+                    break;
+                }
+                if start.elapsed().as_secs() > spec.cap_s {
+                    out.stats.cap_hit = true;
+                    break 'progs;
+                }
+            }
+        }
+    }
+    out
+}
+
 #[derive(Serialize, Deserialize, Default)]
 pub struct WorkerOut {
     pub stats: Stats,
